@@ -10,7 +10,7 @@ CONSTANTS Design = "copy"
           MaxWaits = {5}
           ZipMins = {0, 100}
           QCaps = {2}
-          Keeps = {TRUE, FALSE}
+          Keeps = {TRUE}
           MaxDirect = 3
           Reconfig = 0
           EarlyFlush = FALSE
